@@ -30,7 +30,7 @@ Next == l < Len(Log) /\ l' = l + 1
 Spec == Init /\ [][Next]_l
 cur == Log[l]
 
-WR == INSTANCE WalReader WITH MaxFrames <- 0, NPages <- 0, PgMin <- 0, BothBad <- TRUE, NParts <- 1, Part <- 0, wal <- 0
+WR == INSTANCE WalReader WITH MaxFrames <- 0, NPages <- 0, PgMin <- 0, BothBad <- TRUE, MaxBad <- 0, NParts <- 1, Part <- 0, wal <- 0
 
 NF == Len(cur.frames)
 D == [hdr |-> cur.hdr,
